@@ -73,26 +73,55 @@ func (s *clientSide) settle(d time.Duration) bool {
 
 // tlsRecordsOK: raw bytes form a sequence of TLS records (content type 20..23, version 3.x, length <= 2^14+2048)
 func tlsRecordsOK(raw []byte) bool {
+	ok, _ := tlsRecords(raw)
+	return ok
+}
+
+// tlsRecords also counts the records: a session the server ends is ended with a closing record of its own (the
+// close_notify alert travels as one more encrypted record behind the last reply)
+// closingRecord: the last record is an alert — in TLS 1.2 a record of type 21, in TLS 1.3 an encrypted record whose
+// payload is the two alert bytes, the content type and the 16-byte tag (no protocol message is that short)
+func closingRecord(raw []byte) bool {
+	last, lastLen := -1, 0
+	for len(raw) >= 5 {
+		l := int(raw[3])<<8 | int(raw[4])
+		if len(raw) < 5+l {
+			break
+		}
+		last, lastLen = int(raw[0]), l
+		raw = raw[5+l:]
+	}
+	return last == 21 || (last == 23 && lastLen == 19)
+}
+
+func tlsRecords(raw []byte) (bool, int) {
+	n := 0
 	for len(raw) > 0 {
 		if len(raw) < 5 {
-			return false
+			return false, n
 		}
 		if raw[0] < 20 || raw[0] > 23 || raw[1] != 3 {
-			return false
+			return false, n
 		}
 		l := int(raw[3])<<8 | int(raw[4])
 		if l > 16384+2048 || len(raw) < 5+l {
-			return false
+			return false, n
 		}
 		raw = raw[5+l:]
+		n++
 	}
-	return true
+	return true, n
 }
 
 // runTLS drives an SSLRequest + TLS session against the real server.
 // pre: bytes sent in plaintext (SSLRequest, possibly followed by stuffed bytes; chunked per preChunks);
 // msgs: plaintext protocol chunks sent inside the TLS session, lock-step.
+// how the client's read side of the last TLS session ended: "eof" (the server's close_notify arrived), "cut" (the
+// transport ended without it), "" (no TLS session / still open)
+var lastTLSReadEnd string
+
 func runTLS(cs *caseT, preChunks []int, msgs [][]byte) (o *obsT, handshake string, rawOK bool, turnBase int) {
+	lastTLSReadEnd = ""
 	reg := &registry{recs: map[string]*recorder{}}
 	conn, rec := newSession(cs, reg)
 	conn.encrypted = cs.cfg.tls
@@ -149,6 +178,11 @@ func runTLS(cs *caseT, preChunks []int, msgs [][]byte) (o *obsT, handshake strin
 					n, err := tc.Read(buf)
 					pmu.Lock()
 					plain = append(plain, buf[:n]...)
+					if err == io.EOF {
+						lastTLSReadEnd = "eof"
+					} else if err != nil {
+						lastTLSReadEnd = "cut"
+					}
 					pmu.Unlock()
 					if err != nil {
 						return
@@ -210,6 +244,9 @@ func runTLS(cs *caseT, preChunks []int, msgs [][]byte) (o *obsT, handshake strin
 	rawOK = true
 	if first[0] == 'S' {
 		rawOK = len(raw) >= 1 && tlsRecordsOK(raw[1:])
+		if len(raw) >= 1 && closingRecord(raw[1:]) {
+			lastTLSReadEnd = "closed"
+		}
 		pmu.Lock()
 		o.out = append([]byte{'S'}, plain...)
 		pmu.Unlock()
@@ -285,7 +322,7 @@ func emitTLS(c *runCfg, only map[string]bool, id *int, class string, cfg cfgT, p
 	cs.pre = 1
 	// the model is told whether the TLS handshake succeeded (crypto/tls is an oracle)
 	head := cs.sxHead()
-	c.out.line("(sess " + cs.id + " " + class + " " + head + " " + sx("tlsobs", sx("handshake", hs), sx("rawok", rawOK), sx("nmsgs", len(msgs)), sx("turnbase", base), sx("prechunks", map[bool]int{true: 2, false: 1}[cfg.auth != "none"])) + " " + o.sx(true) + ")")
+	c.out.line("(sess " + cs.id + " " + class + " " + head + " " + sx("tlsobs", sx("handshake", hs), sx("rawok", rawOK), sx("nmsgs", len(msgs)), sx("turnbase", base), sx("prechunks", map[bool]int{true: 2, false: 1}[cfg.auth != "none"]), sx("readend", lastTLSReadEnd)) + " " + o.sx(true) + ")")
 	c.stat("class_" + class)
 	c.stat("handshake_" + hs)
 	*id++
